@@ -2,5 +2,7 @@ import PgmVerif.Props.C17
 open PgmVerif
 #print axioms PgmVerif.C17_shift_den
 #print axioms PgmVerif.C17_unroll_slices
+#print axioms PgmVerif.C17_shift_add
+#print axioms PgmVerif.C17_unroll_prefix
 #print axioms PgmVerif.C17_unroll_wf
 #print axioms PgmVerif.C17_slicewise_elimination_exact
